@@ -680,7 +680,7 @@ func (w *world) decide(i int, o Op) {
 		if e == nil {
 			return
 		}
-		user := vkit.UserIDs[mod(o.User, len(vkit.UserIDs))]
+		user := vkit.AllUserIDs[mod(o.User, len(vkit.AllUserIDs))]
 		w.st.ApproveDevice(e.DeviceCode, user)
 		m.approved, m.approver = true, user
 	case "deny":
